@@ -4,6 +4,8 @@ import GoblVerif.Props.C02
 import GoblVerif.Props.C03
 import GoblVerif.Props.C04
 import GoblVerif.Props.C05
+import GoblVerif.Props.C07
+import GoblVerif.Props.C08
 import GoblVerif.Props.C12
 import GoblVerif.Props.C17
 import GoblVerif.Props.C18
